@@ -102,3 +102,26 @@ def load_repo_tests(report):
     report.count("repo_tests_expansions", len(c.expansions))
     log("  corpus /repo/tests/it[unimock_test]: %d defs, %d entrait expansions (%.1fs)" % (len(c.defs), len(c.expansions), wall))
     return Loaded("repo_tests", "unimock_test", c, {}, wall)
+
+
+EXAMPLES = (("example_axum", "example-axum"), ("example_async_graphql", "example-async-graphql"))
+
+
+def load_repo_examples(report):
+    """Thorough tier: the repository's example applications (examples/axum, examples/async-graphql:
+    workspace members using entrait with axum / async-graphql / tokio, built in test mode with the
+    unimock feature) as further corpora for the uniform rules. Type-checked under the driver, never run."""
+    from .common import REPO
+    from .facts import run_driver
+    out = []
+    for crate_name, pkg in EXAMPLES:
+        facts, diags, wall = run_driver(REPO, crate_name, cargo_args=("-p", pkg, "--tests"), only=crate_name)
+        if facts is None:
+            errs = [d for d in diags if d["level"] == "error"]
+            raise CheckError("the repository's %s example does not compile: %s" % (pkg, errs[0]["rendered"] if errs else "?"))
+        c = Crate(facts, REPO)  # spans are relative to the workspace root
+        report.count("repo_example_expansions", len(c.expansions))
+        log("  corpus /repo/examples/%s[unimock_test]: %d defs, %d entrait expansions (%.1fs)"
+            % (pkg[len("example-"):], len(c.defs), len(c.expansions), wall))
+        out.append(Loaded(pkg, "unimock_test", c, {}, wall))
+    return out
